@@ -490,7 +490,12 @@ class PartitionedArray(object):
                         for i, ci in enumerate(c):
                             counts[i] += ci
                 arraycounts = [ak.layout.NumpyArray(numpy.array([x])) for x in counts]
-                return ak.layout.Record(ak.layout.RecordArray(arraycounts, names), 0)
+                return ak.layout.Record(
+                    ak.layout.RecordArray(
+                        arraycounts, None if prepared[0].istuple else names
+                    ),
+                    0,
+                )
             else:
                 return sum(prepared)
         else:
